@@ -17,7 +17,7 @@ import (
 // arithmetic are not computed here (that would be a test); only the guards are compared.
 
 func init() {
-	register(&core.Rule{ID: "OP-DECISION", Props: []string{"C03"}, Floor: 20,
+	register(&core.Rule{ID: "OP-DECISION", Props: []string{"C03"}, Floor: 36,
 		Doc: "decision table of the operator library: set operators keep exactly the elements their definition names, quantifiers / CHOOSE / set refinement react to the predicate with the right polarity and recurse over every bound set, floor-division and modulo adjust exactly when TLA+ and Go disagree, range and emptiness preconditions are the stated ones",
 		Run: runOpDecision})
 }
@@ -184,6 +184,118 @@ func runOpDecision(c *core.Ctx) {
 				return true
 			}},
 	}
+	// recursive descent over the bound sets: the recursive call (not the initial helper(0)) and the depth it passes on
+	recursiveCall := func(info *types.Info, n ast.Node) bool {
+		call, ok := n.(*ast.CallExpr)
+		if !ok || len(call.Args) == 0 {
+			return false
+		}
+		id, ok := an.Unparen(call.Fun).(*ast.Ident)
+		if !ok || id.Name != "helper" {
+			return false
+		}
+		last := call.Args[len(call.Args)-1]
+		if tv := info.Types[last]; tv.Value != nil {
+			return false // helper(..., 0): the initial call
+		}
+		return true
+	}
+	lastArg := func(info *types.Info, n ast.Node) ast.Expr {
+		call := n.(*ast.CallExpr)
+		return call.Args[len(call.Args)-1]
+	}
+	returnsCallOf := func(name string) func(*types.Info, ast.Node) bool {
+		return func(info *types.Info, n ast.Node) bool {
+			r, ok := n.(*ast.ReturnStmt)
+			if !ok || len(r.Results) != 1 {
+				return false
+			}
+			call, ok := an.Unparen(r.Results[0]).(*ast.CallExpr)
+			if !ok {
+				return false
+			}
+			id, ok := an.Unparen(call.Fun).(*ast.Ident)
+			return ok && id.Name == name
+		}
+	}
+	depth := map[string]string{"idx": "", "len(sets)": ""}
+	rows = append(rows,
+		dtRow{fn: ".SetComprehension", key: "recurses-for-every-element", why: "below full depth, every element of the bound set leads one level down", find: recursiveCall, ints: depth, bools: []string{"it.Done()"},
+			ref: func(a dtAtoms) bool { return a.I("idx") != a.I("len(sets)") && !a.B("it.Done()") }},
+		dtRow{fn: ".SetComprehension", key: "recurses-one-level-down", why: "the next bound variable is the next one", find: recursiveCall, valueOf: lastArg, ints: depth, bools: []string{"it.Done()"}, optional: true,
+			refInt: func(a dtAtoms) int64 { return a.I("idx") + 1 }},
+		dtRow{fn: ".CrossProduct", key: "emits-at-full-depth", why: "one tuple per complete choice of components", find: builderSet, ints: depth,
+			ref: func(a dtAtoms) bool { return !(a.I("idx") < a.I("len(sets)")) }},
+		dtRow{fn: ".CrossProduct", key: "recurses-for-every-element", why: "every element of every component set is used", find: recursiveCall, ints: depth, bools: []string{"it.Done()"},
+			ref: func(a dtAtoms) bool { return a.I("idx") < a.I("len(sets)") && !a.B("it.Done()") }},
+		dtRow{fn: ".CrossProduct", key: "recurses-one-level-down", why: "the next component is the next one", find: recursiveCall, valueOf: lastArg, ints: depth, bools: []string{"it.Done()"}, optional: true,
+			refInt: func(a dtAtoms) int64 { return a.I("idx") + 1 }},
+		dtRow{fn: ".FunctionSubstitution", key: "applies-update-at-the-end-of-the-path", why: "[f EXCEPT ![k1]...[kn] = e] evaluates e for the value found after the last key", find: returnsCallOf("value"),
+			ints: map[string]string{"len(keys)": ""}, existsOthers: true, ref: func(a dtAtoms) bool { return a.I("len(keys)") == 0 }},
+		dtRow{fn: ".FunctionSubstitution", key: "tuple-index-in-bounds", why: "a sequence is updated at positions 1..Len only", exprOf: requireArg(1),
+			ints: map[string]string{"idx": "", "sourceTuple.Len()": ""}, ref: func(a dtAtoms) bool { return a.I("idx") >= 1 && a.I("idx") <= a.I("sourceTuple.Len()") }},
+		dtRow{fn: ".ModuleDotDotSymbol", key: "contains-every-number-of-the-range", why: "a..b contains i exactly for a <= i <= b", find: builderSet, ints: map[string]string{"i": "", "to": ""},
+			ref: func(a dtAtoms) bool { return a.I("i") <= a.I("to") }},
+		dtRow{fn: ".ModuleSubSeq", key: "empty-when-from-exceeds-to", why: "SubSeq(s, m, n) is <<>> when m > n", find: func(info *types.Info, n ast.Node) bool {
+			r, ok := n.(*ast.ReturnStmt)
+			if !ok || len(r.Results) != 1 {
+				return false
+			}
+			found := false
+			ast.Inspect(r.Results[0], func(m ast.Node) bool {
+				if call, ok := m.(*ast.CallExpr); ok {
+					if f := an.CalleeFunc(info, call); f != nil && f.Name() == "NewList" {
+						found = true
+					}
+				}
+				return true
+			})
+			return found
+		}, ints: map[string]string{"from": "", "to": ""}, ref: func(a dtAtoms) bool { return a.I("from") > a.I("to") }},
+		dtRow{fn: ".ModuleSubSeq", key: "indices-in-bounds", why: "otherwise 1 <= m <= n <= Len(s) is required", exprOf: requireArg(0),
+			ints: map[string]string{"from": "", "to": "", "tuple.Len()": ""}, ref: func(a dtAtoms) bool {
+				return a.I("from") <= a.I("to") && a.I("from") >= 1 && a.I("to") <= a.I("tuple.Len()")
+			}},
+	)
+	initialCall := func(info *types.Info, n ast.Node) bool {
+		call, ok := n.(*ast.CallExpr)
+		if !ok || len(call.Args) == 0 {
+			return false
+		}
+		id, ok := an.Unparen(call.Fun).(*ast.Ident)
+		if !ok || id.Name != "helper" {
+			return false
+		}
+		tv := info.Types[call.Args[len(call.Args)-1]]
+		return tv.Value != nil && tv.Value.ExactString() == "0"
+	}
+	assignsFromCall := func(recvMethod string) func(*types.Info, ast.Node) bool {
+		return func(info *types.Info, n ast.Node) bool {
+			as, ok := n.(*ast.AssignStmt)
+			if !ok || len(as.Rhs) != 1 {
+				return false
+			}
+			call, ok := an.Unparen(as.Rhs[0]).(*ast.CallExpr)
+			if !ok {
+				return false
+			}
+			f := an.CalleeFunc(info, call)
+			return f != nil && f.Name() == recvMethod
+		}
+	}
+	isF, isT := "source.IsFunction()", "source.IsTuple()"
+	rows = append(rows,
+		dtRow{fn: ".SetComprehension", key: "starts-at-the-first-bound", why: "the enumeration starts with the first bound set", find: initialCall, ref: func(a dtAtoms) bool { return true }},
+		dtRow{fn: ".CrossProduct", key: "starts-at-the-first-component", why: "the enumeration starts with the first component", find: initialCall, ref: func(a dtAtoms) bool { return true }},
+		dtRow{fn: ".FunctionSubstitution", key: "function-updated-as-function", why: "a function / record source is updated through its map", find: assignsFromCall("AsFunction"),
+			ints: map[string]string{"len(keys)": ""}, bools: []string{isF, isT}, ref: func(a dtAtoms) bool { return a.I("len(keys)") != 0 && a.B(isF) }},
+		dtRow{fn: ".FunctionSubstitution", key: "sequence-updated-as-sequence", why: "a sequence source is updated by position", find: assignsFromCall("AsTuple"),
+			ints: map[string]string{"len(keys)": ""}, bools: []string{isF, isT}, ref: func(a dtAtoms) bool { return a.I("len(keys)") != 0 && !a.B(isF) && a.B(isT) }},
+		dtRow{fn: ".ModuleSuperscriptSymbol", key: "int32-range", why: "a power outside the int32 range is refused", exprOf: requireArg(0),
+			// the operands are floats, which the abstract domain does not evaluate: the two comparisons are atoms (their text
+			// names the bound and the direction) and the row decides how they are combined
+			bools: []string{"rawResult<=math.MaxInt32", "rawResult>=math.MinInt32"}, ref: func(a dtAtoms) bool { return a.B("rawResult<=math.MaxInt32") && a.B("rawResult>=math.MinInt32") }},
+	)
 	runDecisionRows(c, e, an.PkgTLA, "", rows)
 }
 
